@@ -1,6 +1,6 @@
 (* C37 — correspondence and trace oracle.
    Spec side (written from DDS 1.4 2.2.3 / table "Changeable", not from the code):
-     consistent(q)  :  max_samples >= max_samples_per_instance (Unlimited = infinity), KEEP_LAST depth <=
+     consistent(q)  :  max_samples >= max_samples_per_instance (Unlimited = infinity), 1 <= KEEP_LAST depth <=
                        max_samples_per_instance, reader: deadline.period >= time_based_filter.minimum_separation,
                        writer (XTypes 7.6.3.1): at most one data representation offered;
      immutable once enabled: DURABILITY, LIVELINESS, RELIABILITY, DESTINATION_ORDER, HISTORY, RESOURCE_LIMITS,
@@ -25,7 +25,7 @@ Definition dur_ge (a b : option Z) : bool :=     (* a >= b with None = infinite 
   end.
 Definition spec_consistent (k : ekind) (q : eqos) : bool :=
   len_ge (q_ms q) (q_mspi q)
-  && match q_hist q with None => true | Some d => len_ge (q_mspi q) (Some d) end
+  && match q_hist q with None => true | Some d => (1 <=? d) && len_ge (q_mspi q) (Some d) end
   && match k with KReader => dur_ge (q_dl q) (q_sep q) | _ => true end
   && match k with KWriter => rep_len (q_rep q) <=? 1 | _ => true end.
 (* values for which the specification says nothing: negative lengths *)
@@ -276,13 +276,83 @@ Definition c37_step (b : q37) (o : wop) (r : ret) : q37 * list N :=
   end
   end.
 
-Fixpoint c37_run (b : q37) (tr : list (wop * ret)) : list N :=
-  match tr with
-  | [] => []
-  | (o, r) :: t => let (b1, v) := c37_step b o r in v ++ c37_run b1 t
+(* ---- "announced to remote participants": observed through get_matched_publication_data /
+   get_matched_subscription_data on the other side, once the harness has let discovery settle after the last
+   change.  The model does not predict these observations (RAny); the oracle compares them with the QoS the
+   tracker knows to be the current, accepted one. ---- *)
+Record q37x : Type := mkQX { x_b : q37; x_settled : bool }.
+Definition q37x_0 : q37x := mkQX q37_0 false.
+
+Definition dz (o : option Z) : Z := match o with Some v => v | None => -1 end.
+Definition bz (b : bool) : Z := if b then 1 else 0.
+Fixpoint zs_eqb (a b : list Z) : bool :=
+  match a, b with
+  | [], [] => true
+  | x :: a', y :: b' => (x =? y) && zs_eqb a' b'
+  | _, _ => false
+  end.
+Definition CLS_GROUP_NOT_ANNOUNCED : N := 3%N.
+
+(* publication: dur dl lat lk ll rel mbt ls ud own str ord | sc coh oa part | td | gd | rep *)
+Definition chk_mpd (b : q37) (wr : Z) (r : ret) : list N :=
+  match r, nthz (b_W b) wr with
+  | RAnn l, Some we =>
+      match qe_q we, nthz (b_PUB b) (qe_par we) with
+      | QE q, Some pe =>
+          match qe_q pe with
+          | QG g =>
+              let own := [q_dur q; dz (q_dl q); dz (q_lat q); q_lk q; dz (q_ll q); q_rel q; dz (q_mbt q); dz (q_ls q);
+                          q_ud q; q_own q; q_str q; q_ord q] in
+              let grp := [g_sc g; bz (g_coh g); bz (g_oa g); g_part g] in
+              if negb (zs_eqb (firstn 12 l) own) || negb (nth 18 l (-9) =? q_rep q) then [0%N]
+              else if negb (zs_eqb (firstn 4 (skipn 12 l)) grp) || negb (nth 17 l (-9) =? g_gd g)
+                   then [CLS_GROUP_NOT_ANNOUNCED]
+              else []
+          | _ => []
+          end
+      | _, _ => []
+      end
+  | _, _ => []
+  end.
+(* subscription: dur dl lat lk ll rel mbt own ord ud sep | sc coh oa part | td | gd | rep *)
+Definition chk_msd (b : q37) (rd : Z) (r : ret) : list N :=
+  match r, nthz (b_R b) rd with
+  | RAnn l, Some re =>
+      match qe_q re, nthz (b_SUB b) (qe_par re) with
+      | QE q, Some se =>
+          match qe_q se with
+          | QG g =>
+              let own := [q_dur q; dz (q_dl q); dz (q_lat q); q_lk q; dz (q_ll q); q_rel q; dz (q_mbt q); q_own q;
+                          q_ord q; q_ud q; dz (q_sep q)] in
+              let grp := [g_sc g; bz (g_coh g); bz (g_oa g); g_part g] in
+              if negb (zs_eqb (firstn 11 l) own) || negb (nth 17 l (-9) =? q_rep q) then [0%N]
+              else if negb (zs_eqb (firstn 4 (skipn 11 l)) grp) || negb (nth 16 l (-9) =? g_gd g)
+                   then [CLS_GROUP_NOT_ANNOUNCED]
+              else []
+          | _ => []
+          end
+      | _, _ => []
+      end
+  | _, _ => []
   end.
 
-Definition C37_viol (c : ent_case) : list N := c37_run q37_0 (zip_trace (c_ops c) (c_outs c)).
+Definition c37x_step (x : q37x) (o : wop) (r : ret) : q37x * list N :=
+  match o with
+  | WSettle => (mkQX (x_b x) true, [])
+  | WMpd _ wr => (x, if x_settled x then chk_mpd (x_b x) wr r else [])
+  | WMsd _ rd => (x, if x_settled x then chk_msd (x_b x) rd r else [])
+  | WGq _ _ | WH _ _ | WKeepnet | WSt _ _ =>
+      let (b', v) := c37_step (x_b x) o r in (mkQX b' (x_settled x), v)
+  | _ => let (b', v) := c37_step (x_b x) o r in (mkQX b' false, v)
+  end.
+
+Fixpoint c37_run (x : q37x) (tr : list (wop * ret)) : list N :=
+  match tr with
+  | [] => []
+  | (o, r) :: t => let (x1, v) := c37x_step x o r in v ++ c37_run x1 t
+  end.
+
+Definition C37_viol (c : ent_case) : list N := c37_run q37x_0 (zip_trace (c_ops c) (c_outs c)).
 Definition C37_model_ok : ent_case -> bool := ent_model_ok.
 Definition C37_oracle_ok (c : ent_case) : bool := is_nil (C37_viol c).
 Definition C37_known (c : ent_case) : N :=
